@@ -65,6 +65,7 @@ fn new_src(id: Id, script: &Script, k: K, sh: Rc<WrapShared>, cb_drop: Rc<Cell<u
         reenabled: false,
         rereg_count_expected: 0,
         removed_in_own_cb: false,
+        exp: [0; 3],
     }
 }
 
@@ -88,7 +89,10 @@ fn make_timer(sim: &Sim, dl: Deadline) -> Timer {
 
 /// Run `f` (a calloop API call) catching panics; a panic is a violation, never a crash.
 fn guarded<T>(sim: &Sim, what: &str, f: impl FnOnce() -> T) -> Option<T> {
-    match catch_unwind(AssertUnwindSafe(f)) {
+    sim.hk.borrow_mut().api_depth += 1;
+    let r = catch_unwind(AssertUnwindSafe(f));
+    sim.hk.borrow_mut().api_depth -= 1;
+    match r {
         Ok(v) => Some(v),
         Err(p) => {
             let in_cb = !sim.st.try_borrow().map(|s| s.cur_event.is_empty() && s.cur_idle.is_none()).unwrap_or(true);
@@ -121,6 +125,7 @@ fn mark_excused(sim: &Sim, id: Id) {
 
 /// record the outcome of an insertion
 fn finish_insert(sim: &Sim, id: Id, mut src: Src, res: Result<calloop::RegistrationToken, String>, natural_failure_expected: bool) {
+    src.exp[0] += 1;
     let fault = std::mem::replace(&mut sim.hk.borrow_mut().fault_window, false);
     match res {
         Ok(tok) => {
@@ -180,6 +185,7 @@ pub fn exec_op(sim: &Sim, op: &Op, in_cb: bool) {
     sim.probe("ops");
     if in_cb {
         sim.trace(|| format!("    cb-op {}", crate::engine::brief(op)));
+        c08_cell(sim, op);
     }
     match op {
         Op::Nop | Op::Dispatch(_) | Op::DropLoop => {}
@@ -280,7 +286,12 @@ pub fn exec_op(sim: &Sim, op: &Op, in_cb: bool) {
             if guarded(sim, "remove", || h.remove(tok)).is_none() {
                 return;
             }
-            sim.hk.borrow_mut().fault_window = false;
+            let fault = std::mem::replace(&mut sim.hk.borrow_mut().fault_window, false);
+            if fault && was_inserted {
+                // the unregistration failed: the source is gone from the loop but its fd may
+                // stay registered until the source is dropped
+                sim.st.borrow_mut().srcs.get_mut(id).unwrap().indeterminate = true;
+            }
             if was_inserted {
                 mark_excused(sim, *id);
                 let mut st = sim.st.borrow_mut();
@@ -289,6 +300,8 @@ pub fn exec_op(sim: &Sim, op: &Op, in_cb: bool) {
                 s.enabled = false;
                 if own {
                     s.removed_in_own_cb = true;
+                } else {
+                    s.exp[2] += 1;
                 }
                 if let K::Timer(t) = &mut s.k {
                     t.armed = false;
@@ -323,6 +336,9 @@ pub fn exec_op(sim: &Sim, op: &Op, in_cb: bool) {
             if !inserted {
                 stale_result(sim, *id, "disable", r);
                 return;
+            }
+            if !own {
+                sim.st.borrow_mut().srcs.get_mut(id).unwrap().exp[2] += 1;
             }
             match r {
                 Ok(()) => {
@@ -369,6 +385,7 @@ pub fn exec_op(sim: &Sim, op: &Op, in_cb: bool) {
                 stale_result(sim, *id, "enable", r);
                 return;
             }
+            sim.st.borrow_mut().srcs.get_mut(id).unwrap().exp[0] += 1;
             match r {
                 Ok(()) => {
                     mark_excused(sim, *id);
@@ -403,6 +420,9 @@ pub fn exec_op(sim: &Sim, op: &Op, in_cb: bool) {
             if !inserted {
                 stale_result(sim, *id, "update", r);
                 return;
+            }
+            if !own {
+                sim.st.borrow_mut().srcs.get_mut(id).unwrap().exp[1] += 1;
             }
             match r {
                 Ok(()) => {
@@ -767,6 +787,47 @@ pub fn exec_op(sim: &Sim, op: &Op, in_cb: bool) {
     }
 }
 
+/// C08 coverage: (running source kind, operation, target kind, aimed at itself?) cells of
+/// the re-entrancy matrix exercised from inside callbacks.
+fn c08_cell(sim: &Sim, op: &Op) {
+    let (running, target, same) = {
+        let st = sim.st.borrow();
+        let run_id = st.cur_event.last().copied().filter(|i| *i != u32::MAX);
+        let running = match run_id {
+            Some(i) => st.srcs.get(&i).map(|s| s.k.name()).unwrap_or("?"),
+            None => {
+                if st.cur_idle.is_some() {
+                    "idle"
+                } else {
+                    "?"
+                }
+            }
+        };
+        let tid = op_target(op);
+        let target = tid.and_then(|t| st.srcs.get(&t)).map(|s| s.k.name()).unwrap_or("-");
+        (running, target, tid.is_some() && tid == run_id)
+    };
+    let cell = format!("{}|{}|{}{}", running, op.name(), target, if same { "|self" } else { "" });
+    let mut h = crate::rng::Fp::default();
+    h.add_str(&cell);
+    {
+        let mut hk = sim.hk.borrow_mut();
+        *hk.c08_cells.entry(cell).or_insert(0) += 1;
+    }
+    sim.rule_ok(&["C08"], h.0);
+}
+
+pub fn op_target(op: &Op) -> Option<Id> {
+    match op {
+        Op::Remove(i) | Op::Disable(i) | Op::Enable(i) | Op::Update(i) | Op::Ping(i) | Op::ClonePing(i) | Op::DropPing(i) | Op::Send(i) | Op::CloneSender(i) | Op::DropSender(i) | Op::PeerClose(i) | Op::FillOut(i) | Op::TakeSource(i) | Op::DropDispatcher(i) | Op::Wake(i) | Op::StreamPush(i) | Op::StreamEnd(i) | Op::TrRemove(i) | Op::TrMap(i) | Op::AdapterIntoInner(i) | Op::AdapterDrop(i) => Some(*i),
+        Op::PeerWrite(i, _) | Op::PeerRead(i, _) | Op::OwnRead(i, _) | Op::TimerSet(i, _) | Op::PingChild(i, _) | Op::DropChildPing(i, _) | Op::TrReplace(i, _) | Op::TrChildRet(i, _) => Some(*i),
+        Op::GenericSet(i, _, _) | Op::PeerWriteChild(i, _, _) => Some(*i),
+        Op::Schedule { exec, .. } => Some(*exec),
+        Op::FailNext { id, .. } => Some(*id),
+        _ => None,
+    }
+}
+
 fn sim_probe_later(sim: &Sim, name: &'static str) {
     // st is borrowed by the caller; probes live in hk
     sim.probe(name);
@@ -814,11 +875,12 @@ fn insert_generic(sim: &Sim, id: Id, fd: FdSpec, interest: u8, mode: u8, keep: b
             let st = sim.st.borrow();
             let Some(s) = st.srcs.get(&o) else { return };
             let K::Generic(g) = &s.k else { return };
-            // the same fd is registered already iff the other source is inserted and enabled
-            natural_fail = s.inserted && s.enabled && !s.indeterminate;
-            if s.indeterminate {
+            // only attempted while the other source has the fd registered (so that it must
+            // fail): two live sources never share an fd, that would be the program's bug
+            if !(s.inserted && s.enabled) || s.indeterminate || g.unusable {
                 return;
             }
+            natural_fail = true;
             (g.own.clone(), None, g.fdkind)
         }
         FdSpec::Released(o) => {
@@ -828,40 +890,19 @@ fn insert_generic(sim: &Sim, id: Id, fd: FdSpec, interest: u8, mode: u8, keep: b
             if !g.released || s.indeterminate {
                 return;
             }
+            if st.srcs.values().any(|o2| o2.inserted && matches!(&o2.k, K::Generic(g2) if Rc::ptr_eq(&g2.own.0, &g.own.0))) {
+                return; // already re-inserted by somebody else
+            }
+            natural_fail = g.unusable;
             (g.own.clone(), None, g.fdkind)
         }
-        FdSpec::Closed => {
-            // a descriptor number that is certainly closed: make one and close it, keeping
-            // a duplicate-free number by holding nothing
-            let (r, w) = os::pipe();
-            let raw = r.as_raw_fd();
-            drop(w);
-            // leak-free: we wrap the raw number after closing it; never closed again because
-            // the OwnedFd is forgotten at drop time (see ClosedFd)
-            drop(r);
-            let _ = raw;
-            natural_fail = true;
-            let (a, _b) = os::socketpair();
-            // use a socket we close below through a second handle: simplest portable way to
-            // obtain EBADF deterministically is an fd number beyond the table
-            drop(_b);
-            (SharedFd(Rc::new(a)), None, FdKind::Sock)
-        }
-        FdSpec::RegularFile => {
+        FdSpec::Closed | FdSpec::RegularFile => {
             natural_fail = true;
             let f = std::fs::File::open("/proc/self/cmdline").or_else(|_| std::fs::File::open("/etc/hostname"));
             let Ok(f) = f else { return };
             (SharedFd(Rc::new(OwnedFd::from(f))), None, FdKind::Sock)
         }
     };
-    if matches!(fd, FdSpec::Closed) {
-        // a readable-forever peerless socket would not fail: instead model "closed" by a
-        // regular file as well (epoll rejects it with EPERM); EBADF cannot be produced without
-        // handing calloop an invalid BorrowedFd, which would be undefined behaviour
-        let f = std::fs::File::open("/proc/self/cmdline");
-        let Ok(f) = f else { return };
-        return insert_generic_with(sim, h, id, SharedFd(Rc::new(OwnedFd::from(f))), None, FdKind::Sock, interest, mode, keep, script, true, matches!(fd, FdSpec::DupOf(_)));
-    }
     insert_generic_with(sim, h, id, own, peer, fdkind, interest, mode, keep, script, natural_fail, matches!(fd, FdSpec::DupOf(_)))
 }
 
@@ -906,6 +947,7 @@ fn insert_generic_with(
             disp: if keep { Some(disp.clone()) } else { None },
             released: false,
             ret_in_pe: None,
+            unusable: natural_fail && !is_dup,
             written: 0,
             read: 0,
         }),
